@@ -6,6 +6,8 @@
    Lines (see harness/drv_thr.c for the implementation side):
      rc <N> <K> <M> <mode> <L> <seed>    N workers x K get/put on M shared nodes;
                                           mode = join | race | hand ; L extra references kept by main
+     cont <N> <K> <op> <C> <seed>        a node's count changed by container paths in one thread (C times)
+                                          while N workers get/put it directly
      seed <N> <R> <keyhex>               N threads race on the first use of the key hash, R later uses each
      seedx <N> <R> <keyhex> <draws>      the same with the first results of the random source scripted
      trees <N> <size> <seed>             N threads on disjoint trees
@@ -126,6 +128,27 @@ let run_rc n k m mode l seed =
   let d = Array.fold_left (+) 0 acc.destroyed in
   Printf.sprintf "rc nodes=%d destroyed=%d early=%d lost=%d put1=%d volrd ?" m d !early !lost d
 
+(* cont: for the count of the member node the container paths are a get (the reference handed
+   to the container) and a put (the container releasing it) by the container's owner *)
+let run_cont n k c seed =
+  let joined = ref false and left = ref c and phase = ref 0 and fin = ref false in
+  let zero = nat_of_int 0 in
+  let main_gen () =
+    if !left > 0 then begin
+      if !phase = 0 then (phase := 1; Some (Get zero)) else (phase := 0; decr left; Some (Put zero))
+    end else if !joined && not !fin then (fin := true; Some (Put zero))
+    else None in
+  let gens = Array.init (n + 1) (fun i -> if i < n then worker_gen ~n_nodes:1 ~k ~seed ~hand:false i else main_gen) in
+  let ths = List.init (n + 1) (fun _ -> ([], table 1 (fun _ -> z_of_int 1))) in
+  let st = init_state (table 1 (fun _ -> z_of_int (n + 1))) ths in
+  let acc = { destroyed = Array.make 1 0; hashes_rev = []; installs = 0; base = st.mem } in
+  let st = run_rr ~gens acc 1 st (List.init (n + 1) (fun i -> i)) in
+  let early = if acc.destroyed.(0) > 0 then 1 else 0 in
+  let lost = abs (int_of_z (st.mem (RC zero)) - 1) in
+  joined := true;
+  let _ = run_rr ~gens acc 1 st [n] in
+  Printf.sprintf "cont destroyed=%d early=%d lost=%d put1=%d volrd ?" acc.destroyed.(0) early lost acc.destroyed.(0)
+
 let run_seed ?(rnd = default_rnd) n r =
   let hs k = List.init k (fun _ -> Hash) in
   let ths = List.init n (fun _ -> (hs (1 + r), (fun _ -> Z0))) @ [(hs 1, (fun _ -> Z0))] in
@@ -158,6 +181,7 @@ let run line =
   match split_on ' ' line with
   | ["rc"; n; k; m; mode; l; seed] ->
     run_rc (int_of_string n) (int_of_string k) (int_of_string m) mode (int_of_string l) (int_of_string seed)
+  | ["cont"; n; k; _op; c; seed] -> run_cont (int_of_string n) (int_of_string k) (int_of_string c) (int_of_string seed)
   | ["seed"; n; r; _key] -> run_seed (int_of_string n) (int_of_string r)
   | ["seedx"; n; r; _key; dr] -> run_seed ~rnd:(rnd_of_script dr) (int_of_string n) (int_of_string r)
   | ["trees"; n; _size; _seed] -> run_trees (int_of_string n)
